@@ -324,12 +324,41 @@ triggered it - a tagged write like any other (`decorWrite`): it moves the key's 
 `set_add`s are what moves the tag sets' deadlines along.  Each decorated call is written here as the list of wrapper
 commands it issues in state `s` (a program over the alphabet `TOp`, so every theorem about histories covers it) and
 what the call did: `.val (some c)` = served `c` from the cache, nothing written; `.vals [some x]` = the body ran and
-its result `x` was stored (first write or re-write).  Which value a call that re-writes hands to its caller (the entry
+its result `x` was stored (first write or re-write); `.vals [none]` = the body ran and the condition rejected its result.  Which value a call that re-writes hands to its caller (the entry
 it found, or the fresh result it waited for) is the strategy's business and left out.  The decorated body returns the
 opaque token `x` at once (calls are sequential). -/
 
 /-- `await backend.set(key, value, expire=ttl, tags=tags)` issued by a decorator (first write or re-write) -/
 def decorWrite (k : Nat) (v : Val) (ttl : Option Nat) (tags : List Nat) : TOp := .set k v ttl .always tags
+
+/-- **how the body of a decorated call runs and whether its result is stored**: the body takes `dur` ticks
+(`time.perf_counter()` around it under `time_condition=`; 0 otherwise); `accept` = the decorator's condition accepts the
+result of a call that found nothing it could serve, `acceptRefresh` = it accepts the result of a call that re-writes an
+entry it DID find (`early`'s recalculation, `hit`'s update).  `cashews/wrapper/decorators.py`: the ordinary path (`_wrap`,
+also with `lock=True` - the call runs under `cache.lock('lock:' + key)` - and with `protected=False` - no thunder protection)
+accepts everything (`condition=None`: any result but `None`; the bodies return tokens); `time_condition=limit` accepts iff
+the body took longer than `limit`; `upper=True` (`_wrap_with_condition`: the decorator is built again on every call, with the
+same `**decor_kwargs` - tags included - and the condition `not detect.calls and <condition>`) rejects whatever is computed
+after an entry was found while the call is still in progress, because finding one is recorded in `detect.calls` (a re-write
+done in a background task runs after the call has returned and its record is cleared: accepted).  None of these options changes which key and
+tags a stored result gets. -/
+structure Run where
+  dur : Nat
+  accept : Bool
+  acceptRefresh : Bool
+  deriving DecidableEq, Repr
+
+/-- the ordinary case: an immediate body, every result stored -/
+def Run.plain : Run := ⟨0, true, true⟩
+
+/-- the simple `@cache(ttl, key=, tags=)` under the options above (`wcall` / `.call` is the case `Run.plain`):
+miss -> run the body (`dur` ticks), store the result if accepted -/
+def simpleCall (cfg : Cfg) (s : St) (k : Nat) (v : Val) (ttl : Option Nat) (tags : List Nat) (r : Run) : List TOp × Out :=
+  match (step cfg s (.get k)).2 with
+  | .val (some c) => ([.get k], .val (some c))
+  | _ =>
+    if r.accept then ([.get k, .adv r.dur, decorWrite k v ttl tags], .vals [some v])
+    else ([.get k, .adv r.dur], .vals [none])
 
 /-- `@cache.early(ttl, early_ttl, tags=...)` (`cashews/decorators/cache/early.py`):
 ```
@@ -339,27 +368,32 @@ early_expire_at, result = cached
 if early_expire_at >= datetime.now(timezone.utc): return result                  # served
 if not await backend.set(lock_key, "1", expire=_early_ttl, exist=False): return result
 task = asyncio.create_task(_get_result_for_early(*args_to_call, unlock=True))    # the recalculation
-if not background: await task
+if not background: return await task
 return result
 # _get_result_for_early: result = await func(...); early_expire_at = now + early_ttl
-#                        await backend.set(key, [early_expire_at, result], expire=ttl, tags=tags)
+#                        if condition(...): await backend.set(key, [early_expire_at, result], expire=ttl, tags=tags)
+#                        finally: if unlock: backend.delete(key + ":lock")
 ```
 The stored value `[early_expire_at, result]` is `.nums [stamp, x]`; `lk` is the lock key `key + ":lock"` (written
 without tags, but a key like any other for the registry: its removal fires the on-remove callback).  In sequential
 histories the lock is free (it is deleted when the recalculation ends).  With `retag = false` the recalculation
 stores its result without tags ("the key is already in its tag sets") - kept only to show, in `Props/C12.lean`,
 that this breaks the property. -/
-def earlyCallWith (retag : Bool) (cfg : Cfg) (s : St) (k lk x : Nat) (ttl : Option Nat) (early : Nat) (tags : List Nat) :
-    List TOp × Out :=
-  let v := Val.nums [s.now + early, x]
+def earlyCallWith (retag : Bool) (cfg : Cfg) (s : St) (k lk x : Nat) (ttl : Option Nat) (early : Nat) (tags : List Nat)
+    (r : Run) : List TOp × Out :=
+  let v := Val.nums [s.now + r.dur + early, x]
   let g := TOp.get k
   let l := TOp.set lk (.tok 1) (some early) .nx []
   match (step cfg s g).2 with
-  | .val none => ([g, decorWrite k v ttl tags], .vals [some (.tok x)])
+  | .val none =>
+    if r.accept then ([g, .adv r.dur, decorWrite k v ttl tags], .vals [some (.tok x)])
+    else ([g, .adv r.dur], .vals [none])
   | .val (some (.nums [stamp, c])) =>
     if s.now ≤ stamp then ([g], .val (some (.tok c)))
     else if (step cfg (step cfg s g).1 l).2 = .bool true then
-      ([g, l, decorWrite k v ttl (if retag then tags else []), .delete lk], .vals [some (.tok x)])
+      if r.acceptRefresh then
+        ([g, l, .adv r.dur, decorWrite k v ttl (if retag then tags else []), .delete lk], .vals [some (.tok x)])
+      else ([g, l, .adv r.dur, .delete lk], .vals [none])
     else ([g, l], .val (some (.tok c)))
   | _ => ([g], .err)
 
@@ -370,18 +404,20 @@ def earlyCall := earlyCallWith true
 cached = await backend.get(_cache_key, default=_empty)
 if cached is not _empty:
     soft_expire_at, result = cached
-    if soft_expire_at > datetime.now(timezone.utc): return result                # served
+    if soft_expire_at > datetime.now(timezone.utc): return result                # served (recorded in detect.calls)
 result = await func(*args, **kwargs)                                             # miss, or past the soft deadline
-soft_expire_at = now + soft_ttl
-await backend.set(_cache_key, [soft_expire_at, result], expire=_ttl, tags=_tags)
+if condition(...):
+    soft_expire_at = now + soft_ttl
+    await backend.set(_cache_key, [soft_expire_at, result], expire=_ttl, tags=_tags)
 return result
 ``` -/
-def softCall (cfg : Cfg) (s : St) (k x : Nat) (ttl : Option Nat) (soft : Nat) (tags : List Nat) : List TOp × Out :=
-  let w := decorWrite k (.nums [s.now + soft, x]) ttl tags
+def softCall (cfg : Cfg) (s : St) (k x : Nat) (ttl : Option Nat) (soft : Nat) (tags : List Nat) (r : Run) : List TOp × Out :=
+  let w := decorWrite k (.nums [s.now + r.dur + soft, x]) ttl tags
+  let compute : List TOp × Out :=
+    if r.accept then ([.get k, .adv r.dur, w], .vals [some (.tok x)]) else ([.get k, .adv r.dur], .vals [none])
   match (step cfg s (.get k)).2 with
-  | .val none => ([.get k, w], .vals [some (.tok x)])
-  | .val (some (.nums [stamp, c])) =>
-    if s.now < stamp then ([.get k], .val (some (.tok c))) else ([.get k, w], .vals [some (.tok x)])
+  | .val none => compute
+  | .val (some (.nums [stamp, c])) => if s.now < stamp then ([.get k], .val (some (.tok c))) else compute
   | _ => ([.get k], .err)
 
 /-- `@cache.hit(ttl, cache_hits, update_after, tags=...)` and `@cache.dynamic` (`cashews/decorators/cache/hit.py`);
@@ -390,40 +426,45 @@ def softCall (cfg : Cfg) (s : St) (k x : Nat) (ttl : Option Nat) (soft : Nat) (t
 cached, hits = await asyncio.gather(backend.get(_cache_key, default=_empty),
                                     backend.incr(_cache_key + ":counter", expire=ttl, tags=_tags))
 if cached is not _empty and hits and hits <= cache_hits:
+    <recorded in detect.calls>
     if update_after and hits == update_after: <_get_and_save in a task, awaited unless background>
     return cached
 return await _get_and_save(...)
 # _get_and_save: result = await func(...)
-#                await asyncio.gather(backend.delete(key + ":counter"), backend.set(key, result, expire=ttl, tags=tags))
+#                if condition(...): await asyncio.gather(backend.delete(key + ":counter"),
+#                                                        backend.set(key, result, expire=ttl, tags=tags))
 ```
 (the in-memory commands never suspend, so the gathered commands run in the order they are listed) -/
-def hitCall (cfg : Cfg) (s : St) (k kc x : Nat) (ttl : Option Nat) (tags : List Nat) (cacheHits updateAfter : Nat) :
-    List TOp × Out :=
+def hitCall (cfg : Cfg) (s : St) (k kc x : Nat) (ttl : Option Nat) (tags : List Nat) (cacheHits updateAfter : Nat)
+    (r : Run) : List TOp × Out :=
   let g := TOp.get k
   let i := TOp.incr kc 1 ttl tags
-  let save := [TOp.delete kc, decorWrite k (.tok x) ttl tags]
+  let save (acc : Bool) : List TOp × Out :=
+    if acc then ([g, i, .adv r.dur, .delete kc, decorWrite k (.tok x) ttl tags], .vals [some (.tok x)])
+    else ([g, i, .adv r.dur], .vals [none])
   match (step cfg s g).2, (step cfg (step cfg s g).1 i).2 with
   | .val (some c), .int n =>
     if n ≠ 0 ∧ n ≤ (cacheHits : Int) then
-      if updateAfter ≠ 0 ∧ n = (updateAfter : Int) then (g :: i :: save, .vals [some (.tok x)])
+      if updateAfter ≠ 0 ∧ n = (updateAfter : Int) then save r.acceptRefresh
       else ([g, i], .val (some c))
-    else (g :: i :: save, .vals [some (.tok x)])
-  | .val none, .int _ => (g :: i :: save, .vals [some (.tok x)])
+    else save r.accept
+  | .val none, .int _ => save r.accept
   | _, _ => ([g, i], .err)
 
-/-- did the decorated body run (and its result get stored)? -/
+/-- did the decorated body run and its result get stored?  (`.vals [none]` = it ran and the condition rejected the result) -/
 def bodyRan : Out → Bool
-  | .vals _ => true
+  | .vals [some _] => true
   | _ => false
 
-/-- **a call of a function decorated with `tags=`**, by any of the decorators that take the parameter, made in state `s`
-for key `k` with the ttl and the tags of this call: the wrapper commands it issues and what it did.  (`lk`, `kc`: the lock /
-counter key is another key than `k`.) -/
+/-- **a call of a function decorated with `tags=`**, by any of the decorators that take the parameter and under any of the
+options that change the wrapping path (`Run`), made in state `s` for key `k` with the ttl and the tags of this call: the
+wrapper commands it issues and what it did.  (`lk`, `kc`: the lock / counter key is another key than `k`.) -/
 inductive DecorCall (cfg : Cfg) (s : St) (k : Nat) (ttl : Option Nat) (tags : List Nat) : List TOp × Out → Prop where
   | simple (v : Val) : DecorCall cfg s k ttl tags ([.call k v ttl tags], (step cfg s (.call k v ttl tags)).2)
-  | early (lk x early : Nat) (h : lk ≠ k) : DecorCall cfg s k ttl tags (earlyCall cfg s k lk x ttl early tags)
-  | soft (x soft : Nat) : DecorCall cfg s k ttl tags (softCall cfg s k x ttl soft tags)
-  | hit (kc x cacheHits updateAfter : Nat) (h : kc ≠ k) :
-      DecorCall cfg s k ttl tags (hitCall cfg s k kc x ttl tags cacheHits updateAfter)
+  | simpleOpt (v : Val) (r : Run) : DecorCall cfg s k ttl tags (simpleCall cfg s k v ttl tags r)
+  | early (lk x early : Nat) (r : Run) (h : lk ≠ k) : DecorCall cfg s k ttl tags (earlyCall cfg s k lk x ttl early tags r)
+  | soft (x soft : Nat) (r : Run) : DecorCall cfg s k ttl tags (softCall cfg s k x ttl soft tags r)
+  | hit (kc x cacheHits updateAfter : Nat) (r : Run) (h : kc ≠ k) :
+      DecorCall cfg s k ttl tags (hitCall cfg s k kc x ttl tags cacheHits updateAfter r)
 
 end CashewsVerif.Tags
